@@ -276,7 +276,11 @@ class Morsel(dict):
     def __init__(self, name, value):
         self.name = bytes_(name, encoding="ascii")
         self.value = bytes_(value, encoding="ascii")
-        assert _valid_cookie_name(self.name)
+
+        # not an ``assert``: the check has to survive ``python -O``, or a name
+        # such as "a; Domain=evil" would be emitted as it stands
+        if not _valid_cookie_name(self.name):
+            raise AssertionError("cookie name must be valid according to RFC 6265")
         self.update(dict.fromkeys(_c_keys, None))
 
     path = cookie_property(b"path")
